@@ -573,4 +573,350 @@ example :
          (2, .rib ⟨[⟨1, 7, false⟩, ⟨1, 8, true⟩, ⟨5, 8, true⟩], ⟨[0], 16, 19, 1, none⟩⟩)] := by
   decide
 
+/-! ### Query wiring of virtual RIBs: after every reload every link is current -/
+
+/-- the unit an action of `spawn_internal` is about -/
+def unitOf : Action → Option Name
+  | .spawnU n _ => some n
+  | .reconfU n => some n
+  | .termU n => some n
+  | _ => none
+
+theorem unitOf_ne (a : Action) (m n : Name) (h : m ≠ n) (ha : unitOf a = some n) : unitOf a ≠ some m := by
+  rw [ha]; intro hc; injection hc with hc; exact h hc.symm
+
+theorem mem_linkOf (ups : Name → Option Name) (g : Nat) (n : Name) (e : Name × VLink) (h : e ∈ linkOf ups g n) :
+    e.1 = n ∧ e.2.gen = g ∧ ups n = some e.2.up := by
+  unfold linkOf at h
+  cases hu : ups n with
+  | none => simp [hu] at h
+  | some u => simp [hu] at h; subst h; exact ⟨rfl, rfl, rfl⟩
+
+theorem wexec_gen (adopt : Bool) (ups : Name → Option Name) (g : Nat) (w : Wire) (a : Action) :
+    (wexec adopt ups g w a).gen = w.gen := by
+  cases a <;> rfl
+
+theorem foldl_wexec_gen (adopt : Bool) (ups : Name → Option Name) (g : Nat) (acts : List Action) (w : Wire) :
+    (acts.foldl (wexec adopt ups g) w).gen = w.gen := by
+  induction acts generalizing w with
+  | nil => rfl
+  | cons a rest ih => rw [List.foldl_cons, ih, wexec_gen]
+
+theorem wexec_gates (adopt : Bool) (ups : Name → Option Name) (g : Nat) (w : Wire) (a : Action) (e : Name × Nat)
+    (h : e ∈ (wexec adopt ups g w a).gates) :
+    (e.2 = g ∧ ((∃ t, a = .spawnU e.1 t) ∨ a = .reconfU e.1)) ∨ (e ∈ w.gates ∧ unitOf a ≠ some e.1) := by
+  cases a with
+  | spawnU n t =>
+    simp only [wexec, List.mem_cons, List.mem_filter] at h
+    rcases h with h | ⟨h1, h2⟩
+    · subst h; exact Or.inl ⟨rfl, Or.inl ⟨t, rfl⟩⟩
+    · exact Or.inr ⟨h1, unitOf_ne _ _ _ (by simpa using h2) (by simp [unitOf])⟩
+  | reconfU n =>
+    simp only [wexec, List.mem_cons, List.mem_filter] at h
+    rcases h with h | ⟨h1, h2⟩
+    · subst h; exact Or.inl ⟨rfl, Or.inr rfl⟩
+    · exact Or.inr ⟨h1, unitOf_ne _ _ _ (by simpa using h2) (by simp [unitOf])⟩
+  | termU n =>
+    simp only [wexec, List.mem_filter] at h
+    exact Or.inr ⟨h.1, unitOf_ne _ _ _ (by simpa using h.2) (by simp [unitOf])⟩
+  | spawnT n t => exact Or.inr ⟨h, by simp [unitOf]⟩
+  | reconfT n => exact Or.inr ⟨h, by simp [unitOf]⟩
+  | termT n => exact Or.inr ⟨h, by simp [unitOf]⟩
+
+/-- the `Reconfiguring` arm as it is (`adopt = true`) -/
+theorem wexec_links (ups : Name → Option Name) (g : Nat) (w : Wire) (a : Action) (e : Name × VLink)
+    (h : e ∈ (wexec true ups g w a).links) :
+    (e.2.gen = g ∧ ups e.1 = some e.2.up ∧ ((∃ t, a = .spawnU e.1 t) ∨ a = .reconfU e.1)) ∨ (e ∈ w.links ∧ unitOf a ≠ some e.1) := by
+  cases a with
+  | spawnU n t =>
+    simp only [wexec, List.mem_append, List.mem_filter] at h
+    rcases h with h | ⟨h1, h2⟩
+    · obtain ⟨h1, h2, h3⟩ := mem_linkOf ups g n e h
+      subst h1; exact Or.inl ⟨h2, h3, Or.inl ⟨t, rfl⟩⟩
+    · exact Or.inr ⟨h1, unitOf_ne _ _ _ (by simpa using h2) (by simp [unitOf])⟩
+  | reconfU n =>
+    simp only [wexec, if_true, List.mem_append, List.mem_filter] at h
+    rcases h with h | ⟨h1, h2⟩
+    · obtain ⟨h1, h2, h3⟩ := mem_linkOf ups g n e h
+      subst h1; exact Or.inl ⟨h2, h3, Or.inr rfl⟩
+    · exact Or.inr ⟨h1, unitOf_ne _ _ _ (by simpa using h2) (by simp [unitOf])⟩
+  | termU n =>
+    simp only [wexec, List.mem_filter] at h
+    exact Or.inr ⟨h.1, unitOf_ne _ _ _ (by simpa using h.2) (by simp [unitOf])⟩
+  | spawnT n t => exact Or.inr ⟨h, by simp [unitOf]⟩
+  | reconfT n => exact Or.inr ⟨h, by simp [unitOf]⟩
+  | termT n => exact Or.inr ⟨h, by simp [unitOf]⟩
+
+theorem foldl_wexec_gates (adopt : Bool) (ups : Name → Option Name) (g : Nat) (acts : List Action) (w : Wire) (e : Name × Nat)
+    (h : e ∈ (acts.foldl (wexec adopt ups g) w).gates) :
+    (e.2 = g ∧ ((∃ t, .spawnU e.1 t ∈ acts) ∨ .reconfU e.1 ∈ acts)) ∨ (e ∈ w.gates ∧ ∀ a ∈ acts, unitOf a ≠ some e.1) := by
+  induction acts generalizing w with
+  | nil => exact Or.inr ⟨h, fun a ha => by cases ha⟩
+  | cons a rest ih =>
+    rw [List.foldl_cons] at h
+    rcases ih _ h with ⟨h1, h2⟩ | ⟨h1, h2⟩
+    · refine Or.inl ⟨h1, ?_⟩
+      rcases h2 with ⟨t, ht⟩ | h2
+      · exact Or.inl ⟨t, List.mem_cons_of_mem _ ht⟩
+      · exact Or.inr (List.mem_cons_of_mem _ h2)
+    · rcases wexec_gates adopt ups g w a e h1 with ⟨h3, h4⟩ | ⟨h3, h4⟩
+      · refine Or.inl ⟨h3, ?_⟩
+        rcases h4 with ⟨t, ht⟩ | h4
+        · exact Or.inl ⟨t, by rw [ht]; exact List.mem_cons_self⟩
+        · exact Or.inr (by rw [h4]; exact List.mem_cons_self)
+      · refine Or.inr ⟨h3, ?_⟩
+        intro b hb
+        rcases List.mem_cons.mp hb with hb | hb
+        · rw [hb]; exact h4
+        · exact h2 b hb
+
+theorem foldl_wexec_links (ups : Name → Option Name) (g : Nat) (acts : List Action) (w : Wire) (e : Name × VLink)
+    (h : e ∈ (acts.foldl (wexec true ups g) w).links) :
+    (e.2.gen = g ∧ ups e.1 = some e.2.up ∧ ((∃ t, .spawnU e.1 t ∈ acts) ∨ .reconfU e.1 ∈ acts)) ∨ (e ∈ w.links ∧ ∀ a ∈ acts, unitOf a ≠ some e.1) := by
+  induction acts generalizing w with
+  | nil => exact Or.inr ⟨h, fun a ha => by cases ha⟩
+  | cons a rest ih =>
+    rw [List.foldl_cons] at h
+    rcases ih _ h with ⟨h1, hu, h2⟩ | ⟨h1, h2⟩
+    · refine Or.inl ⟨h1, hu, ?_⟩
+      rcases h2 with ⟨t, ht⟩ | h2
+      · exact Or.inl ⟨t, List.mem_cons_of_mem _ ht⟩
+      · exact Or.inr (List.mem_cons_of_mem _ h2)
+    · rcases wexec_links ups g w a e h1 with ⟨h3, hu, h4⟩ | ⟨h3, h4⟩
+      · refine Or.inl ⟨h3, hu, ?_⟩
+        rcases h4 with ⟨t, ht⟩ | h4
+        · exact Or.inl ⟨t, by rw [ht]; exact List.mem_cons_self⟩
+        · exact Or.inr (by rw [h4]; exact List.mem_cons_self)
+      · refine Or.inr ⟨h3, ?_⟩
+        intro b hb
+        rcases List.mem_cons.mp hb with hb | hb
+        · rw [hb]; exact h4
+        · exact h2 b hb
+
+theorem lookup_some_mem (n : Name) (t : Ty) (l : List (Name × Ty)) (h : lookup n l = some t) : (n, t) ∈ l := by
+  induction l with
+  | nil => cases h
+  | cons x xs ih =>
+    unfold lookup at h
+    by_cases hx : x.1 = n
+    · rw [if_pos hx] at h; injection h with h
+      have : x = (n, t) := by cases x; simp at hx h; simp [hx, h]
+      rw [this]; exact List.mem_cons_self
+    · rw [if_neg hx] at h; exact List.mem_cons_of_mem _ (ih h)
+
+theorem lookup_ne_none_of_mem (n : Name) (t : Ty) (l : List (Name × Ty)) (h : (n, t) ∈ l) : lookup n l ≠ none := by
+  induction l with
+  | nil => cases h
+  | cons x xs ih =>
+    unfold lookup
+    by_cases hx : x.1 = n
+    · rw [if_pos hx]; simp
+    · rw [if_neg hx]
+      rcases List.mem_cons.mp h with h | h
+      · exact absurd (by rw [← h]) hx
+      · exact ih h
+
+/-- Every successful load — clean loader state or not — acts on every unit that was running:
+    reconfigure, terminate, or terminate + spawn. -/
+theorem step_touches_running (v : Mgr.Variant) (s s' : St) (l : Load) (acts : List Action)
+    (h : step v s l = (s', .ok acts)) (n : Name) (hn : lookup n s.runU ≠ none) :
+    ∃ a ∈ acts, unitOf a = some n := by
+  obtain ⟨doc, cfg, _, _, _, _, _, hacts, _⟩ := step_ok v s s' l acts h
+  rw [hacts, unitActions_eq]
+  cases hl : lookup n s.runU with
+  | none => exact absurd hl hn
+  | some ty =>
+    by_cases hmem : n ∈ cfg.units.map Comp.name
+    · obtain ⟨u, hu, hname⟩ := List.mem_map.mp hmem
+      generalize union (v.pending0 s) (union (v.gates0 s) cfg.links) = pending
+      by_cases hk : n ∈ pending ∧ ty = u.ty
+      · refine ⟨.reconfU n, ?_, rfl⟩
+        apply List.mem_append_right; apply List.mem_append_left
+        exact List.mem_flatMap.mpr ⟨u, hu, (mem_unitStep_reconf s.runU pending u n).mpr ⟨hname, hk.1, by rw [hl, hk.2]⟩⟩
+      · refine ⟨.termU n, ?_, rfl⟩
+        apply List.mem_append_right; apply List.mem_append_left
+        refine List.mem_flatMap.mpr ⟨u, hu, (mem_unitStep_term s.runU pending u n).mpr ⟨hname, ty, hl, ?_⟩⟩
+        by_cases hp : n ∈ pending
+        · exact Or.inr (fun h => hk ⟨hp, h⟩)
+        · exact Or.inl hp
+    · refine ⟨.termU n, ?_, rfl⟩
+      apply List.mem_append_right; apply List.mem_append_right
+      exact List.mem_map.mpr ⟨(n, ty), List.mem_filter.mpr ⟨lookup_some_mem n ty s.runU hl, by simpa using hmem⟩, rfl⟩
+
+theorem targetActions_no_unit (runT : List (Name × Ty)) (ts : List Comp) (a : Action) (h : a ∈ targetActions runT ts) :
+    unitOf a = none := by
+  rw [targetActions_eq] at h
+  rcases List.mem_append.mp h with h | h
+  · obtain ⟨t, _, ht⟩ := List.mem_flatMap.mp h
+    rcases targetStep_kinds runT t a ht with ⟨_, _, rfl⟩ | ⟨_, rfl⟩ | ⟨_, rfl⟩ <;> rfl
+  · obtain ⟨e, _, he⟩ := List.mem_map.mp h
+    rw [← he]; rfl
+
+/-- A unit a successful load spawns or reconfigures is running afterwards. -/
+theorem step_started_runs (v : Mgr.Variant) (s s' : St) (l : Load) (acts : List Action)
+    (h : step v s l = (s', .ok acts)) (n : Name)
+    (hn : (∃ t, .spawnU n t ∈ acts) ∨ .reconfU n ∈ acts) : lookup n s'.runU ≠ none := by
+  obtain ⟨doc, cfg, _, _, _, _, _, hacts, hs'⟩ := step_ok v s s' l acts h
+  rw [hs']
+  simp only
+  generalize union (v.pending0 s) (union (v.gates0 s) cfg.links) = pending at hacts ⊢
+  have key : ∀ a ∈ acts, ((∃ t, a = .spawnU n t) ∨ a = .reconfU n) → ∃ u ∈ cfg.units, u.name = n ∧ n ∈ pending := by
+    intro a ha hk
+    rw [hacts] at ha
+    rcases List.mem_append.mp ha with ha | ha
+    · have := targetActions_no_unit _ _ a ha
+      rcases hk with ⟨t, rfl⟩ | rfl <;> simp [unitOf] at this
+    · rw [unitActions_eq] at ha
+      rcases List.mem_append.mp ha with ha | ha
+      · obtain ⟨u, hu, hau⟩ := List.mem_flatMap.mp ha
+        rcases hk with ⟨t, rfl⟩ | rfl
+        · obtain ⟨h1, _, h3, _⟩ := (mem_unitStep_spawn s.runU pending u n t).mp hau
+          exact ⟨u, hu, h1, h3⟩
+        · obtain ⟨h1, h3, _⟩ := (mem_unitStep_reconf s.runU pending u n).mp hau
+          exact ⟨u, hu, h1, h3⟩
+      · obtain ⟨e, _, he⟩ := List.mem_map.mp ha
+        rcases hk with ⟨t, rfl⟩ | rfl <;> cases he
+  obtain ⟨u, hu, hname, hp⟩ : ∃ u ∈ cfg.units, u.name = n ∧ n ∈ pending := by
+    rcases hn with ⟨t, ht⟩ | hr
+    · exact key _ ht (Or.inl ⟨t, rfl⟩)
+    · exact key _ hr (Or.inr rfl)
+  apply lookup_ne_none_of_mem n u.ty
+  exact List.mem_map.mpr ⟨u, List.mem_filter.mpr ⟨hu, by simpa [hname] using hp⟩, by rw [hname]⟩
+
+theorem lstep_mgr (v : Variant) (s : Live) (l : LLoad) :
+    (lstep v s l).1.mgr = (Mgr.step v.mgr s.mgr l.load).1 ∧ (lstep v s l).2 = (Mgr.step v.mgr s.mgr l.load).2 := by
+  unfold lstep
+  generalize Mgr.step v.mgr s.mgr l.load = r
+  obtain ⟨st, res⟩ := r
+  cases res <;> exact ⟨rfl, rfl⟩
+
+/-- The wiring invariant: every running unit serves the command channel of the last successful
+    load, and every virtual RIB's query link sends into a channel of that load. -/
+def Wire.current (w : Wire) (runU : List (Name × Ty)) : Prop :=
+  (∀ e ∈ w.gates, e.2 = w.gen ∧ lookup e.1 runU ≠ none) ∧
+  (∀ e ∈ w.links, e.2.gen = w.gen ∧ lookup e.1 runU ≠ none)
+
+theorem wstep_current (v : Variant) (s : LiveW) (l : LLoad) (h : s.wire.current s.live.mgr.runU) :
+    (wstep true v s l).1.wire.current (wstep true v s l).1.live.mgr.runU := by
+  unfold wstep
+  generalize hr : lstep v s.live l = r
+  obtain ⟨s', res⟩ := r
+  cases res with
+  | ok acts =>
+    obtain ⟨hstep, _⟩ := lstep_ok v s.live s' l acts hr
+    simp only
+    have hgen := foldl_wexec_gen true (upsOfLoad v l) (s.wire.gen + 1) acts { s.wire with gen := s.wire.gen + 1 }
+    refine ⟨?_, ?_⟩
+    · intro e he
+      rw [hgen]
+      rcases foldl_wexec_gates true _ _ acts _ e he with ⟨h1, h2⟩ | ⟨h1, h2⟩
+      · exact ⟨h1, step_started_runs v.mgr s.live.mgr s'.mgr l.load acts hstep e.1 h2⟩
+      · obtain ⟨a, ha, hau⟩ := step_touches_running v.mgr s.live.mgr s'.mgr l.load acts hstep e.1 (h.1 e h1).2
+        exact absurd hau (h2 a ha)
+    · intro e he
+      rw [hgen]
+      rcases foldl_wexec_links _ _ acts _ e he with ⟨h1, _, h2⟩ | ⟨h1, h2⟩
+      · exact ⟨h1, step_started_runs v.mgr s.live.mgr s'.mgr l.load acts hstep e.1 h2⟩
+      · obtain ⟨a, ha, hau⟩ := step_touches_running v.mgr s.live.mgr s'.mgr l.load acts hstep e.1 (h.2 e h1).2
+        exact absurd hau (h2 a ha)
+  | err =>
+    have hk : s'.mgr.runU = s.live.mgr.runU := by
+      obtain ⟨h1, h2⟩ := lstep_mgr v s.live l
+      rw [hr] at h1 h2
+      simp only at h1 h2
+      rw [h1]
+      exact (C13_failed_load_keeps_running v.mgr s.live.mgr l.load (fun acts ha => by rw [← h2] at ha; cases ha)).1
+    simp only [hk]; exact h
+  | panic =>
+    have hk : s'.mgr.runU = s.live.mgr.runU := by
+      obtain ⟨h1, h2⟩ := lstep_mgr v s.live l
+      rw [hr] at h1 h2
+      simp only at h1 h2
+      rw [h1]
+      exact (C13_failed_load_keeps_running v.mgr s.live.mgr l.load (fun acts ha => by rw [← h2] at ha; cases ha)).1
+    simp only [hk]; exact h
+
+theorem westep_current (v : Variant) (s : LiveW) (e : Ev) (h : s.wire.current s.live.mgr.runU) :
+    (westep true v s e).1.wire.current (westep true v s e).1.live.mgr.runU := by
+  cases e with
+  | load l => exact wstep_current v s l h
+  | connect r port => exact h
+  | route r active pfxs lost =>
+    simp only [westep, estep]
+    cases sessionUnit r s.live.units <;> exact h
+
+/-- **C13 (wiring, every history).** Along every history of (re)loads — successful, failing, panicking,
+    clean loader state or not, either variant — router connections, announcements and withdrawals, the
+    wiring invariant holds: every running unit serves the command channel created by the last
+    successful load and every running virtual RIB's query link was created by that load too. -/
+theorem C13_wiring_current_history (v : Variant) (evs : List Ev) (s : LiveW) (h : s.wire.current s.live.mgr.runU) :
+    (wrun true v s evs).wire.current (wrun true v s evs).live.mgr.runU := by
+  induction evs generalizing s with
+  | nil => exact h
+  | cons e es ih => exact ih _ (westep_current v s e h)
+
+theorem lookupG_mem (n : Name) (g : Nat) (l : List (Name × Nat)) (h : lookupG n l = some g) : (n, g) ∈ l := by
+  induction l with
+  | nil => cases h
+  | cons x xs ih =>
+    unfold lookupG at h
+    by_cases hx : x.1 = n
+    · rw [if_pos hx] at h; injection h with h
+      have : x = (n, g) := by cases x; simp at hx h; simp [hx, h]
+      rw [this]; exact List.mem_cons_self
+    · rw [if_neg hx] at h; exact List.mem_cons_of_mem _ (ih h)
+
+theorem lookupL_mem (n : Name) (k : VLink) (l : List (Name × VLink)) (h : lookupL n l = some k) : (n, k) ∈ l := by
+  induction l with
+  | nil => cases h
+  | cons x xs ih =>
+    unfold lookupL at h
+    by_cases hx : x.1 = n
+    · rw [if_pos hx] at h; injection h with h
+      have : x = (n, k) := by cases x; simp at hx h; simp [hx, h]
+      rw [this]; exact List.mem_cons_self
+    · rw [if_neg hx] at h; exact List.mem_cons_of_mem _ (ih h)
+
+/-- **C13 (after any sequence of reloads every kept virtual RIB's query link is current).** From
+    start-up, after every history, a query to a running virtual RIB whose upstream unit runs is
+    answered: its link sends into the command channel that unit serves *now*. -/
+theorem C13_vrib_link_current (v : Variant) (evs : List Ev) (n : Name) (k : VLink) (g : Nat)
+    (hl : lookupL n (wrun true v LiveW.init evs).wire.links = some k)
+    (hg : lookupG k.up (wrun true v LiveW.init evs).wire.gates = some g) :
+    k.gen = g ∧ (wrun true v LiveW.init evs).wire.answers n = true := by
+  have h0 : LiveW.init.wire.current LiveW.init.live.mgr.runU := by
+    refine ⟨fun e he => ?_, fun e he => ?_⟩ <;> simp [LiveW.init, Wire.init] at he
+  have hinv := C13_wiring_current_history v evs LiveW.init h0
+  have h1 := (hinv.2 (n, k) (lookupL_mem n k _ hl)).1
+  have h2 := (hinv.1 (k.up, g) (lookupG_mem k.up g _ hg)).1
+  simp only at h1 h2
+  refine ⟨by rw [h1, h2], ?_⟩
+  unfold Wire.answers
+  rw [hl]; simp only [hg]
+  simp [h1, h2]
+
+/-! The shape of a violation: a unit whose `Reconfiguring` arm does not adopt the file's
+    `vrib_upstream` (`adopt = false`) keeps sending its triggers into the channel its physical RIB
+    served before the reload. `b0 -> rib (filter_names = [f0, f1]) -> null`: -/
+def wVribDoc : RawDoc :=
+  ⟨[⟨0, some 0, .absent, none, 0, none⟩, ⟨2, some 4, .many [.s 0], none, 2, none⟩],
+   [⟨0, some 0, .many [.s 2], none, 0, none⟩]⟩
+def wVribLoad : LLoad :=
+  ⟨⟨false, wVribDoc, false, [], []⟩, [(0, .bmp ⟨5000⟩), (2, .rib ⟨[0], 8, 19, 0, none⟩), (120, .rib ⟨[2], 8, 19, 0, none⟩)]⟩
+
+/-- start-up: the generated virtual RIB `rib-vRIB-0` (120) runs and its query is answered -/
+theorem C13_vrib_answers_after_startup :
+    (wrun true asWritten LiveW.init [.load wVribLoad]).wire = ⟨1, [(120, 1), (2, 1), (0, 1)], [(120, ⟨2, 1⟩)]⟩ ∧
+    (wrun true asWritten LiveW.init [.load wVribLoad]).wire.answers 120 = true := by decide
+
+/-- the code as it is: after a reload of the unchanged file (and a failed load, and traffic) still answered -/
+theorem C13_vrib_answers_after_reload :
+    (wrun true asWritten LiveW.init [.load wVribLoad, .connect 7 5000, .load wVribLoad, .load ⟨⟨true, wVribDoc, false, [], []⟩, []⟩, .route 7 true [1] []]).wire.answers 120 = true := by decide
+
+/-- a unit that keeps the link it was started with: after one reload the query is never answered -/
+theorem C13_vrib_stale_link_shape :
+    (wrun false asWritten LiveW.init [.load wVribLoad, .load wVribLoad]).wire.links = [(120, ⟨2, 1⟩)] ∧
+    lookupG 2 (wrun false asWritten LiveW.init [.load wVribLoad, .load wVribLoad]).wire.gates = some 2 ∧
+    (wrun false asWritten LiveW.init [.load wVribLoad, .load wVribLoad]).wire.answers 120 = false := by decide
+
 end Rotonda.Reconf
